@@ -36,14 +36,16 @@
 
 using namespace FIX8;
 
-// ---- TSan build only -----------------------------------------------------------------------------------
+// ---- stale joins ------------------------------------------------------------------------------------------
 // fix8's _f8_threadcore joins its pthread in the destructor no matter whether the thread was ever started
-// (pm_thread: the writer's _tid is 0) or has been joined already (Connection::stop joins, the destructor joins
-// again).  glibc answers ESRCH; ThreadSanitizer treats a join on an id that is not live as fatal ("dup thread
-// with used id") and kills the process.  So that the TSan tier can run at all, pthread_create / pthread_join
-// are interposed in this executable: a join on an id that is not a live, created-and-not-yet-joined thread
-// returns ESRCH without reaching TSan.  (Reported as a finding of its own; nothing in /repo is changed.)
-#if defined(__SANITIZE_THREAD__)
+// (pm_thread: the writer's _tid is 0) or has been joined already (Timer::~Timer and Connection::stop join
+// explicitly, then ~_f8_threadcore joins the same id again; the session harness joins the timer thread once
+// more).  Joining an id twice is undefined: glibc answers ESRCH while the dead thread's stack is still cached,
+// and reads freed memory (SEGV in __pthread_clockjoin_ex, observed here after 5 sender threads had come and
+// gone) once it is not; ThreadSanitizer treats it as fatal ("dup thread with used id").  So that a concurrent
+// phase with several threads can be followed by the session's destruction at all, pthread_create / pthread_join
+// are interposed in this executable: a join on an id that is not a live, created-and-not-yet-joined thread returns
+// ESRCH without reaching libc.  (Reported as a finding of its own; nothing in /repo is changed.)
 #include <dlfcn.h>
 #include <pthread.h>
 #include <errno.h>
@@ -72,7 +74,6 @@ extern "C" int pthread_join(pthread_t th, void **ret)
 	}
 	return real(th, ret);
 }
-#endif
 
 namespace {
 
